@@ -31,6 +31,10 @@ THEOREMS = [
     "C20_serialisable_with_spawned_tasks",
     "C20_spawned_task_waits_for_its_creation",
     "C20_spawned_writer_skipping_lock_loses_update",
+    "C20_source_shape_timer_free",
+    "C20_open_block_duration_is_invisible",
+    "C20_serialisable_whatever_the_durations",
+    "C20_lock_wait_timeout_loses_update",
 ]
 EXPLANATION = (
     "Lean transition system over the shared state-store model (WfModel/StateStore.lean, section C20): any number of tasks, each "
@@ -56,17 +60,36 @@ EXPLANATION = (
     "C20_serialisable_with_spawned_tasks: every schedule after which all created tasks have ended ends in the serial run of the "
     "tasks that took effect, in an order that lists every creator's block before the tasks it created (any spawn shape, both "
     "backends, with cancellations); a store whose set() skips the lock for such a task provably loses the write. "
+    "Time (TSys = SpSys + clock): the awaits inside edit_state bodies take `dur t k` seconds (a slow call inside the block: "
+    "seconds to a day), `tick d` lets d seconds pass, a task asleep at such an await cannot run before it is over (a "
+    "cancellation request wakes it at once); nothing else depends on the clock - the store modules use no timer primitive "
+    "(C20_source_shape_timer_free, from the source: no wait_for / timeout / sleep / call_later), so a task queued on the "
+    "lock waits for as long as the block is open. C20_open_block_duration_is_invisible: every timed run is the untimed run "
+    "of the schedule without its ticks (same store, holder, FIFO, positions, log), a tick is always possible and changes "
+    "the clock only, an enabled action stays enabled however much later; C20_serialisable_whatever_the_durations: hence the "
+    "serial-order theorem for every assignment of durations; C20_lock_wait_timeout_loses_update: a store whose short "
+    "operations give up waiting for the lock after 30 s and run anyway loses the set_state on both backends as soon as a "
+    "block stays open longer (6 actions), and is indistinguishable from the real one with shorter blocks. "
     "Tie: lock flags from source (C20_source_shape, C20_source_shape_scoped_lock break when a writer leaves the lock or the lock "
     "is used other than through `async with`); real InMemoryStateStore and SqliteStateStore are driven by real asyncio Tasks "
-    "under a scripted scheduler, one await-free section or one Task.cancel() per action, over all interleavings of 2-3 "
+    "under a scripted scheduler with virtual time (harness/sloop.py: a running loop, current_task and working timers exist "
+    "for the code under test; set-up and read-back calls run as tasks on it too), one await-free section, one Task.cancel() "
+    "or one tick (the clock jumps to the earliest pending timer when no section is ready) per action, over all interleavings of 2-3 "
     "operations with 0-2 cancellable tasks and 0-2 tasks that an edit_state body creates from inside its block (real "
     "loop.create_task in the creator's task context, so the child inherits its contextvars) (seeded random schedules for 4-5 "
     "and beyond the cap), and after every action store "
-    "content, lock holder, waiter FIFO, per-task position (incl. pending cancellation: Ic / Wc / Wm / Bkc, ended: D / X / A) and "
-    "log are diffed against the model driver. Monitors (model-independent): final state is one of the serial outcomes, computed "
+    "content, lock holder, waiter FIFO, per-task position (incl. pending cancellation: Ic / Wc / Wm / Bkc, ended: D / X / A), "
+    "log, the clock after a tick, and the set of tasks that have a section ready (`cready`: both directions - a task the "
+    "implementation makes runnable although it is asleep or queued behind a held lock diverges) are diffed against the "
+    "model driver. Slow-block scenarios (gen2t/3t/45t/3tc/3ts): awaits inside blocks take 1 s .. 1 day of virtual time while "
+    "the other tasks set / set_state / clear / edit the keys the block works on. Monitors (model-independent): final state is one of the serial outcomes, computed "
     "on the real store, of the operations that took effect (a created task's operation is one more operation and cannot "
     "precede the block that creates it); both backends reach the same set of final states; snapshots taken "
-    "mid-schedule keep their top-level mapping; no task is left stuck (a cancelled waiter must not block the lock)."
+    "mid-schedule keep their top-level mapping; no task is left stuck (a cancelled waiter must not block the lock); "
+    "no write operation returns, and no second block is entered, while another task is between entry and exit of an "
+    "edit_state block (harness bookkeeping only); every final state of a slow-block scenario is also a final state of the "
+    "same scenario with bare yields (the time a block stays open does not matter); the same with a reader (`get`) among "
+    "the tasks (monitors only)."
 )
 LEVEL_TEXT = "proof (Lean 4) of the model + per-action correspondence with both real stores under a scripted scheduler + direct monitors"
 ASSUMPTIONS = [
@@ -89,13 +112,17 @@ ASSUMPTIONS = [
     "own child's store operation dead-locks by design of the non re-entrant lock)",
     "one process, one store object per run: SqliteStateStore's lock is per object; two store objects (or processes) on the same "
     "run_id are outside the property as stated ('steps update the same run's state store')",
-    "readers (get / get_state) take part only as snapshot probes of the monitors; C20 is about the final state",
+    "readers (get / get_state) take part as snapshot probes of the monitors and, in the gen3tr* scenarios, as tasks that queue "
+    "on the lock with the writers (monitors only, no correspondence); C20 is about the final state",
+    "time: sections take no time; virtual time passes only when no section is ready (the semantics of an idle event loop "
+    "jumping to its next timer), by exactly the distance to the earliest pending timer; in the model a tick of any length is "
+    "possible at any point (a superset). Durations are whole seconds",
     "edit_state bodies that raise are exercised in the correspondence only (memory keeps the partial edit, SQLite drops it; see C19)",
     "value/path semantics of the operations are those of C19 (same model, same assumptions)",
 ]
 TRUSTED_EXTRA = [
-    "harness/sloop.py: scripted scheduler over asyncio.BaseEventLoop (CPython private attributes _ready, Handle._run, "
-    "Task._fut_waiter, Task._must_cancel, Lock._locked, Lock._waiters)",
+    "harness/sloop.py: scripted scheduler with virtual time over asyncio.BaseEventLoop (CPython private attributes _ready, "
+    "_scheduled, Handle._run, TimerHandle._when, Task._fut_waiter, Task._must_cancel, Lock._locked, Lock._waiters)",
     "harness/ss_common.py, harness/ss_models.py, harness/gen/statestore.py (shared with C19)",
 ]
 
@@ -118,7 +145,12 @@ class ConcRun:
         self.loop = SLoop()
         self.store = S.make_mem(self.kind) if backend == "mem" else sqlenv.store(self.kind)
         if sc.get("init") is not None:
-            S.drive(self.store.set_state(S.make_instance(self.kind, "same", sc["init"])))
+            S.drive(self.store.set_state(S.make_instance(self.kind, "same", sc["init"])), loop=self.loop)
+        self.durs = durations(sc)
+        self.got: dict[int, Any] = {}
+        self.slow_block = False          # virtual time passed while an edit_state block was open
+        self.intrusions: list[tuple[int, int]] = []  # (task whose write returned, task whose block was open)
+        self.overlap: list[int] | None = None        # two blocks open at once
         self.started = [False] * n
         self.inbody = [False] * n
         self.chunk = [0] * n
@@ -149,13 +181,17 @@ class ConcRun:
                 await st.set_state(S.make_instance(self.kind, op[1], op[2]))
             elif k == "clear":
                 await st.clear()
+            elif k == "get":
+                # a reader: no effect on the state, but it goes through the same lock (in memory) and queues with the writers
+                self.got[i] = await st.get(op[1], None)
             elif k == "edit":
                 chunks = op[1] or [[]]
                 async with st.edit_state() as state:
                     self.inbody[i] = True
                     for j, ch in enumerate(chunks):
                         if j > 0:
-                            await asyncio.sleep(0)  # the body awaits between chunks
+                            # the body awaits between chunks: a bare yield, or a call that takes `d` (virtual) seconds
+                            await asyncio.sleep(self.durs[i][j - 1] if j - 1 < len(self.durs[i]) else 0)
                         for c in self.children.get((i, j), ()):
                             # `asyncio.create_task(...)` inside the open block: the new task starts with a copy of
                             # this task's context, as any task created inside the `async with` does
@@ -206,10 +242,35 @@ class ConcRun:
         return [i for i, t in enumerate(self.tasks) if t is not None and not t.done()]
 
     def step(self, i: int) -> None:
+        was_done = self.tasks[i].done()
         self.loop.run_one(self.tasks[i])
+        self.loop.run_internal()
         self.steps += 1
         if self.status(i) in ("D", "A") and i not in self.log:
             self.log.append(i)
+        open_blocks = [j for j, b in enumerate(self.inbody) if b]
+        if len(open_blocks) > 1 and self.overlap is None:
+            self.overlap = open_blocks
+        if not was_done and self.status(i) == "D" and self.errors[i] is None and self.tasks_spec[i][0] != "get":
+            # the operation of task i has returned: no other task may be between the entry and the exit of an
+            # edit_state block at that moment (the block is one operation)
+            self.intrusions += [(i, j) for j in open_blocks if j != i]
+
+    def can_tick(self) -> bool:
+        return self.loop.next_timer() is not None
+
+    def tick(self) -> float:
+        """virtual time passes: up to the earliest pending timer (the end of a slow call inside a block, or
+        whatever timer the code under test has set)"""
+        if any(self.inbody):
+            self.slow_block = True
+        d = self.loop.advance_to_next_timer() or 0.0
+        self.steps += 1
+        return d
+
+    def now(self) -> str:
+        e = self.loop.elapsed()
+        return str(int(e)) if e == int(e) else repr(e)
 
     # ---- observation
     def store_canon(self) -> str:
@@ -233,7 +294,7 @@ class ConcRun:
 
     def final_canon(self) -> str:
         """what the store holds, backend-independent"""
-        return safe_final(self.S, self.store)
+        return safe_final(self.S, self.store, self.loop)
 
     def observe(self) -> str:
         lock = self.store._lock
@@ -270,7 +331,7 @@ class ConcRun:
         if self.backend == "sql" and self.sqlenv.raw_row(self.store.run_id) is None:
             return  # get_state would insert the default row and perturb the run
         try:
-            st = self.S.drive(self.store.get_state())
+            st = self.S.drive(self.store.get_state(), loop=self.loop, allow_time=False)
         except Exception:  # noqa: BLE001 - reported through the final-state monitors
             return
         top = self.S.state_obj(st)
@@ -290,6 +351,8 @@ class ConcRun:
                     t.cancel()
             live = [t for t in self.tasks if t is not None and not t.done() and self.loop.has_ready(t)]
             if not live:
+                if self.loop.run_internal():
+                    continue
                 break
             self.loop.run_one(live[0])
         for t in self.tasks:
@@ -310,10 +373,26 @@ def spawn_map(sc: dict) -> dict[int, tuple[int, int]]:
     return res
 
 
+def durations(sc: dict) -> list[list[int]]:
+    """`sc["dur"]` = per task the (virtual) seconds that the awaits inside its edit_state body take: entry k is the
+    await between chunk k and chunk k+1; missing / malformed entries are 0 (a bare yield)"""
+    raw = sc.get("dur")
+    res: list[list[int]] = []
+    for i in range(len(sc["tasks"])):
+        d = raw[i] if isinstance(raw, list) and i < len(raw) and isinstance(raw[i], list) else []
+        res.append([x if isinstance(x, int) and not isinstance(x, bool) and x >= 0 else 0 for x in d])
+    return res
+
+
+def is_timed(sc: dict) -> bool:
+    return any(x > 0 for d in durations(sc) for x in d)
+
+
 def driver_prefix(S: Any, backend: str, sc: dict) -> list[str]:
     ini = "-" if sc.get("init") is None else S.enc(sc["init"])
     return [f"cinit|{backend}|{sc['kind']}|{S.schema_enc()}|{ini}"] + [S.cop_line(op) for op in sc["tasks"]] \
-        + [f"cspawn|{c}|{p}|{k}" for c, (p, k) in spawn_map(sc).items()]
+        + [f"cspawn|{c}|{p}|{k}" for c, (p, k) in spawn_map(sc).items()] \
+        + [f"cdur|{t}|{','.join(map(str, d))}" for t, d in enumerate(durations(sc)) if any(d)]
 
 
 def serial_outcomes(S: Any, sqlenv: Any, backend: str, sc: dict, eff: dict[int, list] | None = None) -> dict[str, list[int]]:
@@ -337,12 +416,24 @@ def serial_outcomes(S: Any, sqlenv: Any, backend: str, sc: dict, eff: dict[int, 
     return res
 
 
-def act_line(a: int) -> str:
-    """schedule entry -> driver op: t >= 0 runs the next section of task t, -(t+1) is Task.cancel() on task t"""
+TICK = "tick"  # schedule entry: virtual time passes, up to the earliest pending timer
+
+
+def is_run(a: Any) -> bool:
+    return isinstance(a, int) and a >= 0
+
+
+def is_cancel(a: Any) -> bool:
+    return isinstance(a, int) and a < 0
+
+
+def act_line(a: Any) -> str:
+    """schedule entry -> driver op: t >= 0 runs the next section of task t, -(t+1) is Task.cancel() on task t
+    (a tick's line carries the seconds that passed and is written where it happens)"""
     return f"crun|{a}" if a >= 0 else f"ccancel|{-a - 1}"
 
 
-def line_act(line: str) -> int | None:
+def line_act(line: str) -> Any:
     f = line.split("|")
     if len(f) != 2 or not f[1].isdigit():
         return None
@@ -350,18 +441,24 @@ def line_act(line: str) -> int | None:
         return int(f[1])
     if f[0] == "ccancel":
         return -int(f[1]) - 1
+    if f[0] == "ctick":
+        return TICK
     return None
 
 
-def fmt_sched(sched: list[int]) -> str:
-    return "[" + ", ".join(str(a) if a >= 0 else f"cancel({-a - 1})" for a in sched) + "]"
+def fmt_sched(sched: list) -> str:
+    return "[" + ", ".join(TICK if a == TICK else str(a) if a >= 0 else f"cancel({-a - 1})" for a in sched) + "]"
 
 
-def safe_final(S: Any, store: Any) -> str:
+def safe_final(S: Any, store: Any, loop: Any = None) -> str:
     try:
-        return S.canon_state(S.drive(store.get_state()))
+        return S.canon_state(S.drive(store.get_state(), loop=loop))
     except Exception as e:  # noqa: BLE001 - a store that cannot be read any more is an observation too
         return "unreadable:" + type(e).__name__
+
+
+def dur_class(d: float) -> str:
+    return "0" if d <= 0 else "<30" if d < 30 else "30-60" if d <= 60 else "1-10min" if d <= 600 else ">10min"
 
 
 def op_kinds(sc: dict) -> str:
@@ -386,11 +483,15 @@ class Explorer:
         self.viol: list[Violation] = []
         self.serial: dict[str, dict[str, list[int]]] = {}  # per set of operations that count
         self.n_sched = 0
+        self.complete = False  # every interleaving has been run
         self.sampled = False  # schedules drawn at random on top of the depth-first ones
         n = len(sc["tasks"])
         self.cancellable = [t for t in sc.get("cancel") or [] if isinstance(t, int) and 0 <= t < n]
         self.raises = scenario_raises(sc)
         self.spawned = sorted(c for c in spawn_map(sc) if c < n)
+        # readers are not part of the model (C20 is about the final state): scenarios with a `get` task run under the
+        # monitors only
+        self.model = not any(op[0] == "get" for op in sc["tasks"])
 
     def _flag(self, sig: str, what: str, schedule: list[int]) -> None:
         if any(v.signature == sig for v in self.viol):
@@ -408,6 +509,8 @@ class Explorer:
         eff: dict[int, list] = {}
         for i, op in enumerate(self.sc["tasks"]):
             st = run.status(i)
+            if op[0] == "get":
+                continue  # a reader leaves nothing behind
             if st == "D":
                 eff[i] = op
             elif st == "A" and self.backend == "mem":
@@ -419,38 +522,62 @@ class Explorer:
         -(t+1): cancel task t)"""
         S = self.S
         run = ConcRun(S, self.sqlenv, self.backend, self.sc)
-        pre = driver_prefix(S, self.backend, self.sc)
+        pre = driver_prefix(S, self.backend, self.sc) if self.model else []
         self.lines += pre
         self.impl += ["ok"] * len(pre)
-        sched: list[int] = []
+        mark = len(self.lines)
+        sched: list = []
+
+        def ready_probe() -> None:
+            # the tasks whose next section can run now: the model must agree in both directions (a task asleep at an
+            # await of its body, or queued behind a held lock, has nothing ready, whatever the clock says)
+            self.lines.append("cready")
+            self.impl.append("ready " + ",".join(map(str, run.enabled())))
+
         try:
             depth = 0
+            ready_probe()
             while True:
                 en = run.enabled()
-                if not en:
+                if run.all_done() or (not en and not run.can_tick()):
                     break
-                acts = en + [-(t + 1) for t in self.cancellable if run.can_cancel(t)]
+                # time passes when the loop is idle (no section is ready): sections take no time, a ready task is not
+                # kept waiting for seconds - the semantics of a virtual-time event loop
+                acts = en + [-(t + 1) for t in self.cancellable if run.can_cancel(t)] + ([TICK] if not en and run.can_tick() else [])
                 a = chooser(depth, acts)
                 if self.snapshots and depth > 0:
                     run.take_snapshot()
-                if a >= 0:
+                if a == TICK:
+                    d = run.tick()
+                    self.lines.append("ctick|" + (str(int(d)) if d == int(d) else repr(d)))
+                    self.out.count("tick:" + ("block_open" if any(run.inbody) else "no_block_open")
+                                   + (":writer_queued" if run.store._lock.locked() and getattr(run.store._lock, "_waiters", None) else ""))
+                    self.out.count("tick_seconds:" + dur_class(d))
+                elif a >= 0:
                     run.step(a)
+                    self.lines.append(act_line(a))
                 else:
                     run.cancel(-a - 1)
+                    self.lines.append(act_line(a))
                 sched.append(a)
-                self.lines.append(act_line(a))
-                obs = run.observe()
+                obs = run.observe() + (f" now={run.now()}" if a == TICK else "")
                 self.impl.append(obs)
-                if a < 0:
+                ready_probe()
+                if is_cancel(a):
                     pc = obs.split(" pcs=")[1].split(" ")[0].split(",")[-a - 1]
                     self.out.count("cancel_at:" + ("B" if pc.startswith("B") else "I" if pc.startswith("I") else pc))
                 depth += 1
                 if depth > 200:
                     break
+            if not self.model:
+                del self.lines[mark:], self.impl[mark:]
             self.n_sched += 1
             self.out.evaluations += len(sched)
             cls = "dict" if self.sc["kind"] == "dict" else "typed"
-            after = "_after_cancel" if any(a < 0 for a in sched) else ""
+            after = "_after_cancel" if any(is_cancel(a) for a in sched) else ""
+            if run.slow_block:
+                # an edit_state block stayed open while (virtual) time passed
+                after += "_with_slow_block"
             for c in self.spawned:
                 self.out.count("spawned_task:" + {"U": "never_created", "D": "completed", "X": "cancelled", "A": "aborted"}
                                .get(run.status(c), "unfinished"))
@@ -469,16 +596,28 @@ class Explorer:
             if key not in self.serial:
                 self.serial[key] = serial_outcomes(S, self.sqlenv, self.backend, self.sc, eff)
             serial = self.serial[key]
-            if any(a < 0 for a in sched):
+            if any(is_cancel(a) for a in sched):
                 self.out.count("cancelled_runs:completed=%d/%d" % (sum(run.status(i) == "D" for i in range(len(run.tasks))), len(run.tasks)))
             if final not in serial:
                 counted = {i: (run.status(i), eff.get(i)) for i in range(len(run.tasks))}
                 self._flag(f"C20/no_serial_order{after}:{self.backend}:{op_kinds(self.sc)}",
                            f"{self.backend} store, tasks {self.sc['tasks']!r}, init {self.sc.get('init')!r}"
+                           + (f", the awaits inside the blocks take {run.durs!r} s ({run.now()} s passed)" if is_timed(self.sc) else "")
                            + (f", created inside an open edit_state block [task, creator, chunk]: {self.sc.get('spawn')!r}"
                               if self.spawned else "") + ": schedule "
                            f"{fmt_sched(sched)} ends in {final!r}; the serial orders of the operations that took effect "
                            f"{counted!r} give {sorted(serial)!r}", sched)
+            if run.intrusions:
+                i, j = run.intrusions[0]
+                self._flag(f"C20/write_inside_open_block{after}:{self.backend}:{self.sc['tasks'][i][0]}",
+                           f"{self.backend} store, tasks {self.sc['tasks']!r}, durations of the awaits inside the blocks "
+                           f"{run.durs!r}: the {self.sc['tasks'][i][0]} of task {i} returned while the edit_state block of "
+                           f"task {j} was open (schedule {fmt_sched(sched)}, {run.now()} s after the start): a block is one "
+                           f"operation, nothing is written between its read and its write-back", sched)
+            if run.overlap is not None:
+                self._flag(f"C20/two_blocks_open{after}:{self.backend}",
+                           f"{self.backend} store, tasks {self.sc['tasks']!r}: the edit_state blocks of tasks {run.overlap} "
+                           f"were open at the same time (schedule {fmt_sched(sched)})", sched)
             dmg = run.snapshot_damage()
             if dmg is not None:
                 self._flag(f"C20/snapshot_changed:{self.backend}:{cls}", f"{dmg} (schedule {fmt_sched(sched)}, tasks {self.sc['tasks']!r})", sched)
@@ -529,10 +668,11 @@ class Explorer:
             when = {t: rng.randrange(0, 7) for t in self.cancellable}
 
             def chooser(depth: int, acts: list[int]) -> int:
-                due = [a for a in acts if a < 0 and when[-a - 1] <= depth]
+                due = [a for a in acts if is_cancel(a) and when[-a - 1] <= depth]
                 if due:
                     return due[0]
-                return rng.choice([a for a in acts if a >= 0])
+                rest = [a for a in acts if not is_cancel(a)]
+                return rng.choice(rest) if rest else acts[0]
 
             self.run_schedule(chooser)
 
@@ -613,7 +753,61 @@ def add_spawns(S: Any, rng: Any, sc: dict) -> None:
         sc["spawn"] = sorted(spawn)
 
 
-def gen_scenario(S: Any, rng: Any, n_tasks: int, cancels: bool = False, spawns: bool = False) -> dict:
+# how long the slow calls inside a block take (virtual seconds): around and far beyond any bound somebody might put on
+# a lock wait (half a minute, a minute, five, an hour, a day)
+SLOW_CALLS = [1, 5, 10, 29, 30, 31, 45, 60, 61, 90, 120, 300, 301, 600, 900, 1800, 3600, 7200, 86400]
+
+
+def add_durations(S: Any, rng: Any, sc: dict) -> None:
+    """the awaits inside multi-chunk edit_state bodies become slow calls (the block stays open for seconds to a day of
+    virtual time), and most of the other tasks become writers aimed at what such a block works on: `set` of one of its
+    keys, `set_state` / `clear` of the whole state, or another edit of the same key"""
+    tasks, kind = sc["tasks"], sc["kind"]
+    lv = S.kind_level(kind)
+    slow = [i for i, t in enumerate(tasks) if t[0] == "edit" and len(t[1]) > 1]
+    dur: list[list[int]] = [[] for _ in tasks]
+    for i in slow:
+        dur[i] = [rng.choice(SLOW_CALLS) if rng.random() < 0.85 else 0 for _ in range(len(tasks[i][1]) - 1)]
+    if slow and not any(x > 0 for d in dur for x in d):
+        dur[slow[0]][0] = rng.choice(SLOW_CALLS)
+    sc["dur"] = dur
+    spawned = {c for c, _p, _k in sc.get("spawn") or []}
+    keys = [m[1] for i in slow for ch in tasks[i][1] for m in ch if len(m) > 1]
+    for c in range(len(tasks)):
+        if c in slow[:1] or c in spawned or rng.random() < 0.35:
+            continue
+        x = rng.random()
+        if x < 0.4 and keys:
+            key = rng.choice(keys)
+            val = rng.choice([0, 5, 10, "s", [7]]) if lv is None else S.gen_field_value(rng, key, 1)
+            tasks[c] = ["set", key, val]
+        elif x < 0.7:
+            tasks[c] = ["setstate", "same", S.gen_state_data(rng, kind) if lv is not None
+                        else {k: rng.choice([5, 7, "s", [1]]) for k in rng.sample(["x", "y", "l"], rng.randrange(1, 3))}]
+        elif x < 0.8:
+            tasks[c] = ["clear"]
+        elif keys:
+            key = rng.choice(keys)
+            if lv is None or S.FIELD_TYPES.get(key) in (None, int):
+                tasks[c] = ["edit", [[["I", key, rng.randrange(1, 9)]]]]
+
+
+def add_reader(S: Any, rng: Any, sc: dict) -> None:
+    """one task that is not a slow block becomes a reader (`get` of a key a block works on)"""
+    tasks = sc["tasks"]
+    slow = [i for i, t in enumerate(tasks) if t[0] == "edit" and len(t[1]) > 1]
+    spawned = {c for c, _p, _k in sc.get("spawn") or []}
+    cands = [c for c in range(len(tasks)) if c not in slow[:1] and c not in spawned]
+    keys = [m[1] for i in slow for ch in tasks[i][1] for m in ch if len(m) > 1] or ["x" if sc["kind"] == "dict" else "cnt"]
+    if cands:
+        c = rng.choice(cands)
+        tasks[c] = ["get", rng.choice(keys)]
+        if sc.get("dur"):
+            sc["dur"][c] = []
+
+
+def gen_scenario(S: Any, rng: Any, n_tasks: int, cancels: bool = False, spawns: bool = False, timed: bool = False,
+                 reader: bool = False) -> dict:
     kind = rng.choice(S.KINDS)
     init = None if rng.random() < 0.25 else S.gen_state_data(rng, kind)
     if kind == "dict" and init is not None:
@@ -624,6 +818,10 @@ def gen_scenario(S: Any, rng: Any, n_tasks: int, cancels: bool = False, spawns: 
     sc = {"kind": kind, "init": init, "tasks": tasks}
     if spawns:
         add_spawns(S, rng, sc)
+    if timed:
+        add_durations(S, rng, sc)
+    if reader:
+        add_reader(S, rng, sc)
     if cancels:
         # 1-2 tasks that the scheduler may cancel at any point (not started / queued on the lock / inside the body)
         k = 1 if n_tasks < 3 or rng.random() < 0.6 else 2
@@ -638,11 +836,14 @@ def run(env: Env) -> Outcome:
     from .. import ss_common as S
 
     out = Outcome()
-    out.rule = ("per action (section of a task / Task.cancel()): driver(Sys mem/sql) == observed (store content, lock holder, waiter "
-                "FIFO, task positions incl. pending cancellations and tasks not created yet, log); monitors: final state of every "
+    out.rule = ("per action (section of a task / Task.cancel() / tick of virtual time): driver(TSys mem/sql) == observed (store "
+                "content, lock holder, waiter FIFO, task positions incl. pending cancellations and tasks not created yet, log, "
+                "clock, set of ready tasks); monitors: final state of every "
                 "interleaving is a serial outcome, on the real store, of the operations that took effect (all of them without "
                 "cancellation; a task created inside an edit_state block after that block); both backends "
-                "reach the same set of final states; mid-run snapshots keep their top level; nothing is stuck")
+                "reach the same set of final states; mid-run snapshots keep their top level; nothing is stuck; no write returns "
+                "while another task's edit_state block is open; blocks held open for 1 s .. 1 day of virtual time reach only final "
+                "states that bare yields reach too")
     sqlenv = S.SqlEnv()
     explorers: list[tuple[str, Explorer]] = []
     try:
@@ -686,6 +887,23 @@ def run(env: Env) -> Outcome:
             scenarios.append(("gen45s", gen_scenario(S, env.rng, env.rng.choice([4, 5]), spawns=True), "random"))
         for _ in range(env.budget(2, 25)):
             scenarios.append(("gen3sc", gen_scenario(S, env.rng, 3, cancels=True, spawns=True), "exhaustive"))
+        # blocks that stay open over (virtual) time: the awaits inside edit_state bodies take seconds to a day, the
+        # scheduler may let time pass whenever a timer is pending, other tasks write meanwhile
+        for _ in range(env.budget(6, 60)):
+            scenarios.append(("gen2t", gen_scenario(S, env.rng, 2, timed=True), "exhaustive"))
+        for _ in range(env.budget(4, 40)):
+            scenarios.append(("gen3t", gen_scenario(S, env.rng, 3, timed=True), "exhaustive"))
+        for _ in range(env.budget(1, 15)):
+            scenarios.append(("gen45t", gen_scenario(S, env.rng, env.rng.choice([4, 5]), timed=True), "random"))
+        for _ in range(env.budget(2, 25)):
+            scenarios.append(("gen3tc", gen_scenario(S, env.rng, 3, cancels=True, timed=True), "exhaustive"))
+        for _ in range(env.budget(2, 25)):
+            scenarios.append(("gen3ts", gen_scenario(S, env.rng, 3, spawns=True, timed=True), "exhaustive"))
+        # ... and with a reader among them (monitors only: readers are not part of the model)
+        for _ in range(env.budget(2, 25)):
+            scenarios.append(("gen3tr", gen_scenario(S, env.rng, 3, timed=True, reader=True), "exhaustive"))
+        for _ in range(env.budget(1, 15)):
+            scenarios.append(("gen3trc", gen_scenario(S, env.rng, 3, cancels=True, timed=True, reader=True), "exhaustive"))
         cap = 60 if env.tier == "quick" else 400
 
         for tag, sc, mode in scenarios:
@@ -697,6 +915,7 @@ def run(env: Env) -> Outcome:
                     ex.fixed(sc["schedule"])
                 elif mode == "exhaustive":
                     complete = ex.exhaustive(cap if not ex.cancellable else (2 if env.tier == "quick" else 3) * cap)
+                    ex.complete = complete
                     out.count("exhaustive_complete" if complete else "exhaustive_capped")
                     if not complete and ex.cancellable:  # the depth-first order reaches only late cancellations before the cap
                         ex.random_cancels(env.rng, 20 if env.tier == "quick" else 80)
@@ -709,7 +928,35 @@ def run(env: Env) -> Outcome:
                 out.traces_validated += ex.n_sched
                 out.count("schedules:" + be, ex.n_sched)
                 out.violations += ex.viol
+            # how long a block stays open must not matter: every final state of the scenario is also a final state of the
+            # same scenario with bare yields instead of the slow calls (all interleavings of both)
+            if is_timed(sc) and mode == "exhaustive" and len(per_backend) == 2 \
+                    and not any(ex.viol or ex.sampled or ex.cancellable or not ex.complete for ex in per_backend.values()):
+                sc0 = {k: v for k, v in sc.items() if k not in ("dur", "schedule", "backend")}
+                for be in backends:
+                    ex0 = Explorer(S, sqlenv, out, sc0, be, snapshots=False)
+                    ex0.complete = ex0.exhaustive(cap)
+                    explorers.append((tag + "/untimed", ex0))
+                    out.traces_validated += ex0.n_sched
+                    out.violations += ex0.viol
+                    a, b = per_backend[be].finals, ex0.finals
+                    out.count("durations_vs_bare_yields:" + ("compared" if ex0.complete else "capped"))
+                    if ex0.complete and not ex0.viol and set(a) - set(b):
+                        # (the other inclusion does not hold: time passes only when no section is ready, so a task that
+                        # is ready while a block sleeps always queues before the block goes on - fewer interleavings)
+                        only = sorted(set(a) - set(b))[0]
+                        case = dict(sc)
+                        case["schedule"], case["backend"] = a[only], be
+                        out.violations.append(Violation(
+                            f"C20/duration_changes_outcomes:{be}:{op_kinds(sc)}",
+                            f"{be} store, tasks {sc['tasks']!r}, init {sc.get('init')!r}: final state {only!r} is reached only "
+                            f"when the awaits inside the blocks take {durations(sc)!r} s (schedule {fmt_sched(a[only])}), by no "
+                            f"interleaving when they are bare yields; the time a block stays open must not matter", case))
             out.count("scenario:" + tag.split(":")[0])
+            if is_timed(sc):
+                for d in durations(sc):
+                    for x in d:
+                        out.count("await_in_block_seconds:" + dur_class(x))
             out.count("kind:" + sc["kind"])
             for op in sc["tasks"]:
                 out.count("task:" + op[0])
@@ -758,11 +1005,19 @@ def run(env: Env) -> Outcome:
                  (f"cinit|mem|dict|{S.schema_enc()}|-", "ok"), ("ctask|edit|a1 a0", "ok"), ("ctask|clear", "ok"),
                  ("cspawn|1|0", "bad-op"), ("cspawn|1|x|0", "bad-op"), ("cspawn|1|0|0", "ok"), ("cspawn|1|0|1", "bad-op"),
                  ("crun|1", "disabled"), ("ccancel|1", "disabled"),
-                 ("crun|0", "ok state dict o0 holder=- queue= pcs=D,I log=0"), ("ccancel|1", "ok state dict o0 holder=- queue= pcs=D,Ic log=0")]
+                 ("crun|0", "ok state dict o0 holder=- queue= pcs=D,I log=0"), ("ccancel|1", "ok state dict o0 holder=- queue= pcs=D,Ic log=0"),
+                 # time: a task asleep at a slow call inside its block cannot run until the call is over, whatever else happens
+                 (f"cinit|mem|dict|{S.schema_enc()}|-", "ok"), ("ctask|edit|a2 a0 a0", "ok"), ("ctask|clear", "ok"),
+                 ("cdur|0", "bad-op"), ("cdur|0|x", "bad-op"), ("cdur|0|7", "ok"), ("cdur|0|8", "bad-op"), ("cready", "ready 0,1"),
+                 ("crun|0", "ok state dict o0 holder=0 queue= pcs=B1,I log="), ("cready", "ready 1"), ("crun|0", "disabled"),
+                 ("ctick|x", "bad-op"), ("ctick|", "bad-op"), ("ctick|6", "ok state dict o0 holder=0 queue= pcs=B1,I log= now=6"),
+                 ("crun|0", "disabled"), ("crun|1", "ok state dict o0 holder=0 queue=1 pcs=B1,W log="), ("cready", "ready "),
+                 ("ctick|1", "ok state dict o0 holder=0 queue=1 pcs=B1,W log= now=7"), ("cready", "ready 0"), ("crun|1", "disabled"),
+                 ("crun|0", "ok state dict o0 holder=- queue=1 pcs=D,W log=0"), ("cready", "ready 1"), ("cready|1", "bad-op")]
         lines += [l for l, _ in extra]
         impl += [e for _, e in extra]
         owner += [-1] * len(extra)
-        out.count("malformed_or_disabled_actions", len(extra) - 9)
+        out.count("malformed_or_disabled_actions", sum(1 for _l, e in extra if e in ("bad-op", "disabled")))
         model_out = Driver(MODEL).run(lines) if lines else []
         seen_div = 0
         for i, (mo, io) in enumerate(zip(model_out, impl)):
